@@ -9,7 +9,7 @@ VARIABLES w
 
 Ks     == {2, 3, 4, 8, 16, 32, 64}
 Cs     == {1, 2, 4, 16}
-Mixes  == {"same", "two", "distinct", "endpoints", "range1", "rangeTwin", "rangeDisjoint", "rangeShort", "rangeShortSame", "mixed"}
+Mixes  == {"same", "two", "distinct", "endpoints", "range1", "rangeTwin", "rangeDisjoint", "rangeShort", "rangeShortSame", "rangeMulti", "mixed"}
 Faults == {"none", "first", "flaky"}
 Lats   == {"none", "short", "long"}
 Clocks == {"none", "short", "mid", "long"}   \* second round of callers after the cache clock advanced 30 s / 400 s / 2 h and gc ran
